@@ -31,9 +31,9 @@ type TemplateUse struct {
 	Name     string // constant name, e.g. parserTemplate
 	Src      string
 	Const    *types.Const
-	CallSite *ast.CallExpr            // the renderTemplate(...) call
-	Func     *ast.FuncDecl            // function containing the call site
-	Binds    map[string]ast.Expr      // vars.Set(name, expr) in Func and in the render function
+	CallSite *ast.CallExpr       // the renderTemplate(...) call
+	Func     *ast.FuncDecl       // function containing the call site
+	Binds    map[string]ast.Expr // vars.Set(name, expr) in Func and in the render function
 	BindPos  map[string]token.Pos
 	Direct   bool // template constant passed directly (false: through a local variable)
 	Tree     []jNode
@@ -56,7 +56,7 @@ type RenderedHole struct {
 	Start, End int    // byte offsets in the rendered file
 	Value      any
 	TmplOff    int
-	ProdIndex  int // model production being rendered (-1 outside the production range)
+	ProdIndex  int     // model production being rendered (-1 outside the production range)
 	Range      *jRange // innermost enclosing {{range}} (nil at top level)
 	Iter       int     // iteration number of that range
 }
@@ -664,13 +664,13 @@ func isSliceOf(t types.Type, pkg, name string) bool {
 // ---------- rendering ----------
 
 type renderer struct {
-	ti       *TmplInstance
-	tmpl     string
-	buf      strings.Builder
-	fc       fieldChecker
-	prodIdx  int
-	ranges   []*jRange
-	iters    []int
+	ti      *TmplInstance
+	tmpl    string
+	buf     strings.Builder
+	fc      fieldChecker
+	prodIdx int
+	ranges  []*jRange
+	iters   []int
 }
 
 func (r *renderer) nodes(ns []jNode, env *jEnv) error {
